@@ -218,10 +218,15 @@ Lemma ldf_step_wrap : forall w h dx dy p e, 1 <= w -> 1 <= h ->
     ldf_step dx dy None None p = Ok e ->
     ldf_step dx dy (Some w) (Some h) (wrap w h p) = Ok (wrapq w h e).
 Proof.
-  intros w h dx dy [x y] e Hw Hh H. unfold ldf_step in *. cbn [wrapo bind fst snd wrap] in *.
-  destruct (Z.eqb_spec w 0); [lia|]. destruct (Z.eqb_spec h 0); [lia|]. cbn [bind].
-  destruct (links_from_vector (dx, dy)) as [l|]; [|discriminate]. inversion H; subst.
-  unfold wrapq, wrap. cbn [fst snd]. rewrite !Zplus_mod_idemp_l. reflexivity.
+  (* written against the definition of ldf_step only through computation, so that it survives a re-phrasing of
+     its wrapping step in Model/Geometry.v *)
+  intros w h dx dy [x y] e Hw Hh H. unfold ldf_step in *.
+  cbn -[links_from_vector Z.modulo Z.add Z.eqb] in H |- *.
+  destruct (Z.eqb_spec w 0); [lia|]. destruct (Z.eqb_spec h 0); [lia|].
+  cbn -[links_from_vector Z.modulo Z.add Z.eqb] in H |- *.
+  destruct (links_from_vector (dx, dy)) as [l|]; [|discriminate].
+  cbn -[Z.modulo Z.add] in H |- *. inversion H; subst.
+  unfold wrapq, wrap. cbn -[Z.modulo Z.add]. rewrite !Zplus_mod_idemp_l. reflexivity.
 Qed.
 
 Lemma ldf_steps_wrap : forall w h dx dy n p out e, 1 <= w -> 1 <= h ->
